@@ -339,10 +339,11 @@ def lossless_trunc_rule(prog, chk, rule, functions, floor=1):
     """comparison predicates accumulate differences and test the accumulator for zero: a narrowing on the way may only drop bits
     that are known to be zero (E12), otherwise part of every word stops taking part in the comparison. functions: [(name, unit
     substring or None)]"""
-    n = 0
+    n = nf = 0
     for name, usub in functions:
         for f in [g for g in prog.functions() if not g.decl and g.sname == name and (usub is None or usub in g.unit)]:
             zero = analyse(f)
+            nf += 1
             for i, ins in enumerate(f.insts):
                 if ins["op"] != "trunc" or not ins["ty"][1:].isdigit() or not ins.get("srcbits"):
                     continue
@@ -362,4 +363,5 @@ def lossless_trunc_rule(prog, chk, rule, functions, floor=1):
                 chk.ob(rule, f, "narrowing from %d to %d bits at %s drops only bits that are always zero (or folded into the rest)" % (sb, db, f.loc(i)), ok, loc=f.loc(i),
                        detail="" if ok else "the upper %d bits of the accumulated difference are dropped before the zero test: inputs that "
                        "differ from the reference only there compare as equal" % (sb - db), key="%s %s trunc" % (rule, name))
-    chk.floor(rule, "narrowings in comparison predicates", n, floor)
+    chk.floor(rule, "comparison predicates scanned for narrowings", nf, floor)
+    chk.floor(rule, "narrowings in comparison predicates", n, 0)
